@@ -15,6 +15,7 @@ VERIF = os.path.dirname(os.path.dirname(os.path.abspath(__file__)))
 #  ('mac', off) ('ip4', off) ('ip6', off)
 #  ('bits8', off, mask, shift)                                  sub-byte field typed u8:  (b & mask) >> shift
 #  ('tcpflags',)                                                9-bit TCP flags, u16
+SPEC_ONLY = {('ip4', 'frag_hi'), ('ip4', 'frag_lo')}
 PACKETS = [
  dict(mod='ethernet', name='Ethernet', prefix='eth', min=14,
       fields=[('destination', ('mac', 0)), ('source', ('mac', 6)), ('ethertype', ('nt16', 12, 'EtherType'))],
@@ -29,7 +30,7 @@ PACKETS = [
       fields=[('version', ('bits8', 0, 0xf0, 4)), ('header_length', ('bits8', 0, 0x0f, 0)),
               ('dscp', ('bits8', 1, 0xfc, 2)), ('ecn', ('bits8', 1, 0x03, 0)),
               ('total_length', ('u16', 2)), ('identification', ('u16', 4)),
-              ('flags', ('bits8', 6, 0xe0, 5)), ('ttl', ('u8', 8)),
+              ('flags', ('bits8', 6, 0xe0, 5)), ('frag_hi', ('bits8', 6, 0x1f, 0)), ('frag_lo', ('u8', 7)), ('ttl', ('u8', 8)),
               ('next_level_protocol', ('nt8', 9, 'crate::pnet::packet::ip::IpNextHeaderProtocol')),
               ('checksum', ('u16', 10)), ('source', ('ip4', 12)), ('destination', ('ip4', 16))],
       payload='ipv4', set_payload='ipv4'),
@@ -319,6 +320,7 @@ def gen_packet(p):
         if ps:
             o.append("    #[verifier::external_body] pub fn payload<'p>(&'p self) -> (r: &'p [u8]) requires self.wf() ensures r@ == %s_payload(self@) { unimplemented!() }" % pre)
         for fname, kind in p['fields']:
+            if (pre, fname) in SPEC_ONLY: continue
             ty = ty_of(kind)
             if kind[0] in ('nt8', 'nt16'):
                 ens = 'r.0 == %s_%s(self@)' % (pre, fname)
@@ -327,6 +329,7 @@ def gen_packet(p):
             o.append('    #[verifier::external_body] pub fn get_%s(&self) -> (r: %s) requires self.wf() ensures %s { unimplemented!() }' % (fname, ty, ens))
         if mut:
             for fname, kind in p['fields']:
+                if (pre, fname) in SPEC_ONLY: continue
                 ty = ty_of(kind)
                 o.append('    #[verifier::external_body] pub fn set_%s(&mut self, val: %s) requires old(self).wf()' % (fname, ty))
                 o.append('        ensures final(self)@ == %s_set_%s(old(self)@, %s), final(self).wf() { unimplemented!() }' % (pre, fname, setter_val(kind, 'val')))
@@ -342,7 +345,7 @@ pub open spec fn ip4_set_payload(s: Seq<u8>, v: Seq<u8>) -> Seq<u8> { set_bytes(
 pub open spec fn ip6_set_payload(s: Seq<u8>, v: Seq<u8>) -> Seq<u8> { set_bytes(s, 40, v) }
 pub open spec fn tcp_set_payload(s: Seq<u8>, v: Seq<u8>) -> Seq<u8> { set_bytes(s, 20 + tcp_options_length(s), v) }
 /// IPv4 fragment offset (13 bits) -- spec only, pnet setter not used by masscanned
-pub open spec fn ip4_fragment_offset(s: Seq<u8>) -> int { (s[6] & 0x1f) as int * 256 + s[7] as int }
+pub open spec fn ip4_fragment_offset(s: Seq<u8>) -> int { ip4_frag_hi(s) as int * 256 + ip4_frag_lo(s) as int }
 pub open spec fn zero_header(s: Seq<u8>, n: int) -> bool { s.len() >= n && forall|i: int| 0 <= i < n ==> s[i] == 0 }
 '''
 
@@ -477,7 +480,7 @@ pub proof fn lemma_ip4_zero_header(s: Seq<u8>)
     requires zero_header(s, 20)
     ensures ip4_version(s) == 0, ip4_header_length(s) == 0, ip4_dscp(s) == 0, ip4_ecn(s) == 0, ip4_total_length(s) == 0,
             ip4_identification(s) == 0, ip4_flags(s) == 0, ip4_ttl(s) == 0, ip4_next_level_protocol(s) == 0, ip4_checksum(s) == 0,
-            ip4_fragment_offset(s) == 0
+            ip4_frag_hi(s) == 0, ip4_frag_lo(s) == 0
 {
     IP4_REVEALS
     assert((0u8 & 0xf0) >> 4 == 0 && (0u8 & 0x0f) == 0 && (0u8 & 0xfc) >> 2 == 0 && (0u8 & 0x03) == 0 && (0u8 & 0xe0) >> 5 == 0 && (0u8 & 0x1f) == 0) by(bit_vector);
@@ -489,21 +492,22 @@ pub proof fn lemma_ip6_zero_header(s: Seq<u8>)
     IP6_REVEALS
     assert((0u8 & 0xf0) >> 4 == 0) by(bit_vector);
 }
-/// the IPv4 fragment offset is untouched by every setter masscanned uses except set_flags, which keeps the low 5 bits
-pub proof fn lemma_ip4_frag_after_flags(s: Seq<u8>, v: u8)
+/// the IPv4 header checksum does not depend on the value stored in the checksum field
+pub broadcast proof fn lemma_ip4_hdr_ck_independent(s: Seq<u8>, v: u16)
     requires s.len() >= 20
-    ensures ip4_fragment_offset(ip4_set_flags(s, v)) == ip4_fragment_offset(s)
+    ensures inet_ck(Seq::<u8>::empty(), ip4_hdr_for_ck(#[trigger] ip4_set_checksum(s, v)), 5) == inet_ck(Seq::<u8>::empty(), ip4_hdr_for_ck(s), 5)
 {
-    reveal(ip4_set_flags);
-    let b = s[6];
-    assert((((b & 31) | ((v << 5) & 224)) & 0x1f) == (b & 0x1f)) by(bit_vector);
+    lemma_ip4_set_checksum(s, v);
+    reveal(ip4_set_checksum);
+    let t = ip4_set_checksum(s, v);
+    assert(zero16(ip4_hdr_for_ck(t), 10) =~= zero16(ip4_hdr_for_ck(s), 10));
 }
 /// writing back the value a 16-bit field already holds changes nothing (UDP length after the checksum, ipv4.rs)
-pub proof fn lemma_udp_set_length_same(s: Seq<u8>)
-    requires s.len() >= 8
-    ensures udp_set_length(s, udp_length(s)) == s
+pub broadcast proof fn lemma_udp_set_length_same(s: Seq<u8>, v: u16)
+    requires s.len() >= 8, v == udp_length(s)
+    ensures #[trigger] udp_set_length(s, v) == s
 {
-    assert(udp_set_length(s, udp_length(s)) =~= s);
+    assert(udp_set_length(s, v) =~= s);
 }
 '''
 
@@ -572,6 +576,14 @@ pub mod cksum {
     pub open spec fn pseudo6(src: Seq<u8>, dst: Seq<u8>, proto: u8, len: int) -> Seq<u8> {
         src + dst + seq![((len / 16777216) % 256) as u8, ((len / 65536) % 256) as u8, ((len / 256) % 256) as u8, (len % 256) as u8, 0u8, 0u8, 0u8, proto]
     }
+    /// the ones'-complement sum is commutative over 16-bit words: exchanging the (even-length) source and
+    /// destination blocks of a pseudo-header leaves the checksum unchanged (trusted; validated bounded by Kani)
+    #[verifier::external_body]
+    pub broadcast proof fn axiom_pseudo6_swap(a: Seq<u8>, b: Seq<u8>, proto: u8, len: int, data: Seq<u8>)
+        requires a.len() == 16, b.len() == 16
+        ensures #[trigger] inet_ck_raw(pseudo6(a, b, proto, len), data) == inet_ck_raw(pseudo6(b, a, proto, len), data) {}
+    /// UDP over IPv6: a computed checksum of zero is transmitted as 0xFFFF (RFC 8200 8.1)
+    pub open spec fn nonzero_ck(c: u16) -> u16 { if c == 0 { 0xFFFFu16 } else { c } }
 }
 '''
 
@@ -649,7 +661,7 @@ def main():
     for pre in ('ip4', 'ip6', 'tcp'):
         extra = extra.replace(pre.upper() + '_REVEALS', reveals(pre))
     import re as _re
-    extra = _re.sub(r'(?m)^pub proof fn', '/*PROVED_IN:u_pnet*/ pub proof fn', extra)
+    extra = _re.sub(r'(?m)^pub (broadcast )?proof fn', lambda m: '/*PROVED_IN:u_pnet*/ ' + m.group(0), extra)
     names = LEMMA_NAMES + _re.findall(r'pub broadcast proof fn (\w+)', extra)
     L = ['// GENERATED by tools/gen_pnet_shim.py -- do not edit.  Field algebra of the pnet byte-level axioms.',
          '// Every lemma here is PROVED by Verus in unit u_pnet; other units include the statements only.',
